@@ -45,10 +45,10 @@ impl Property for C14 {
         "C14"
     }
     fn rule(&self) -> &'static str {
-        "gen words: every 16-bit header word w (key = w>>8, 256 words per key); gen triples: every (kind, label type, length) triple (key = kind*4+lt, 4096 lengths per key). A case is non-trivial when the word / triple is not the padding pattern (it exercises decode+re-encode); fingerprint = the word or the triple."
+        "gen words: every 16-bit header word w (key = w>>8, 256 words per key); gen triples: every (kind, label type, length) triple (key = kind*4+lt, 4096 lengths per key). gen decap-view: every word as the first two bytes of a 2-, 3- and 4100-byte buffer: decap answers Padding consuming the buffer, and the peek answers ErrHeaderRead, exactly for the padding pattern. A case is non-trivial when the word / triple is not the padding pattern (it exercises decode+re-encode); fingerprint = the word or the triple."
     }
     fn gens(&self, _cx: &Cx) -> Vec<Gen> {
-        vec![Gen { name: "words", count: 256, exhaustive: true }, Gen { name: "triples", count: 16, exhaustive: true }]
+        vec![Gen { name: "words", count: 256, exhaustive: true }, Gen { name: "triples", count: 16, exhaustive: true }, Gen { name: "decap-view", count: 256, exhaustive: true }]
     }
     fn run_key(&self, cx: &Cx, gen: &str, key: u64, rep: &mut Report) {
         let replay = |k: u64| format!("gen={} key={} seed={} profile={}", gen, k, cx.seed, cx.profile);
@@ -98,6 +98,45 @@ impl Property for C14 {
                             if lo == 0x55 {
                                 rep.sample(|| format!("word {:#06x} -> ({}, {}, lt={}) -> {:#06x}", w, len, kd, wl, w));
                             }
+                        }
+                    }
+                }
+            }
+            "decap-view" => {
+                // the same rule seen through the two functions that read the header word of a buffer: for every
+                // word, in buffers of 2, 3 and 4100 bytes (the word followed by zeros), decap answers Padding
+                // (consuming the whole buffer) and the peek answers ErrHeaderRead exactly for the padding pattern
+                use crate::util::*;
+                use dvb_gse_rust::gse_decap::{DecapStatus, GetLabelorFragIdError};
+                for lo in 0..256u64 {
+                    let w = ((key << 8) | lo) as u16;
+                    let pad = wire::is_padding_word(w);
+                    for blen in [2usize, 3, 4100] {
+                        rep.eval();
+                        let mut buf = vec![0u8; blen];
+                        buf[..2].copy_from_slice(&w.to_be_bytes());
+                        let mut d = plain_dec(2, 16, 1, 16, wire::MandTable::none());
+                        let pk = guard(|| d.get_label_or_frag_id(&buf));
+                        let r = dec_guard(&mut d, &buf);
+                        let is_padding_status = matches!(&r, Ok(Ok((DecapStatus::Padding, n))) if *n == blen);
+                        let any_padding = matches!(&r, Ok(Ok((DecapStatus::Padding, _))));
+                        if pad && !is_padding_status {
+                            rep.violation("C14", format!("decap-padding-pattern-not-padding:len{}", if blen > 3 { 4 } else { blen }), || format!("decap of a {}-byte buffer starting with the padding pattern {:#06x} = {}", blen, w, dec_res_str(&r)), || replay(key));
+                        }
+                        if !pad && any_padding {
+                            rep.violation("C14", "decap-padding-for-non-padding-word".into(), || format!("decap of a {}-byte buffer starting with {:#06x} = Padding", blen, w), || replay(key));
+                        }
+                        match pk {
+                            Err(p) => rep.violation("C14", "peek-panic".into(), || format!("get_label_or_frag_id panicked on word {:#06x}: {}", w, p), || replay(key)),
+                            Ok(res) => {
+                                let hdr_err = res == Err(GetLabelorFragIdError::ErrHeaderRead);
+                                if pad != hdr_err {
+                                    rep.violation("C14", format!("peek-padding-rule:{}", if pad { "padding-word-read-as-packet" } else { "packet-word-read-as-padding" }), || format!("get_label_or_frag_id on a {}-byte buffer starting with {:#06x} = {:?}", blen, w, res), || replay(key));
+                                }
+                            }
+                        }
+                        if !pad {
+                            rep.nontrivial(0x2_0000 + ((w as u64) << 2) + (blen as u64 % 4));
                         }
                     }
                 }
